@@ -161,6 +161,30 @@ AsciiConsistent(t) ==
               IsAscii(t.repls[i].c) /\ t.repls[i].s <= t.repls[i].e
     [] t.k \in {"cached", "box"} -> AsciiConsistent(t.inner)
 
+(* Trees in which every column the crate reports is a byte offset into the  *)
+(* (lossily decoded) text, whatever the text: raw and original leaves,      *)
+(* ConcatSource, ReplaceSource with its positions on character boundaries   *)
+(* of the inner text (or beyond its end), boxes.  A SourceMapSource - and   *)
+(* hence the replay of a CachedSource - slices lines by character index     *)
+(* (known finding K4), so those stay inside AsciiConsistent.                *)
+RECURSIVE ByteColumnTree(_)
+ByteColumnTree(t) ==
+  CASE t.k \in {"raw", "orig"} -> TRUE
+    [] t.k = "concat" ->
+         LET ch == Children(t) IN \A i \in 1..Len(ch) : ByteColumnTree(ch[i])
+    [] t.k = "replace" ->
+         /\ ByteColumnTree(t.inner)
+         /\ LET inner == TextOf(t.inner)
+                ok(p) == p >= Len(inner) \/ p \in Boundaries(inner)
+            IN \A i \in 1..Len(t.repls) :
+                 /\ t.repls[i].s <= t.repls[i].e /\ ok(t.repls[i].s) /\ ok(t.repls[i].e)
+                 /\ IsUtf8(t.repls[i].c)
+    [] t.k = "box" -> ByteColumnTree(t.inner)
+    [] OTHER -> FALSE
+
+(* where generated positions are judged (C02, C03, C11)                     *)
+PosDomain(t) == AsciiConsistent(t) \/ ByteColumnTree(t)
+
 (* C08's domain: segments sorted, on characters of the text or zero-width   *)
 (* at the end of a line / of the text, indices inside the tables            *)
 MapFitsText(map, text) ==
